@@ -1,6 +1,7 @@
 package main
 
 import (
+	"encoding/hex"
 	"crypto/sha256"
 	"encoding/binary"
 	"fmt"
@@ -40,7 +41,7 @@ type c07Prop struct {
 
 func genC07(c *Ctx) error {
 	c.ShardSize = 30
-	c.Notes["rule"] = "one token chaincode instance A lives through the whole history; every proposal is run on A, on a fresh instance B created for that proposal over the same committed state, and on A again, with the same transaction id and timestamp; the three (status, message, payload bytes, write-set, event) are compared. Histories of 30-50 proposals: Init with one of two configurations (different robot), committed or simulated and dropped; token operations through executeTasks (emit, transfer, setFee with known / unknown currency, setFeeAddress, setRate, setLimits, buyToken, buyBack - right and wrong senders and amounts), committed or dropped, some in one task list of several tasks; queries (metadata, predictFee, balanceOf, allowedBalanceOf; also of an address the access-control service black-lists and clears between proposals); batched submissions whose proposal carries a trace parent in the transient map while each simulating peer's decorators add a different span of their own (the pending record is ledger data); probes which robot certificate the instance accepts. Non-trivial: >= 3 dropped simulations that would have changed the metadata and >= 5 committed operations."
+	c.Notes["rule"] = "one token chaincode instance A lives through the whole history; every proposal is run on A, on a fresh instance B created for that proposal over the same committed state, and on A again, with the same transaction id and timestamp; the three (status, message, payload bytes, write-set, event) are compared. Histories of 30-50 proposals: Init with one of two configurations (different robot), committed or simulated and dropped; token operations through executeTasks (emit, transfer, setFee with known / unknown currency, setFeeAddress, setRate, setLimits, buyToken, buyBack - right and wrong senders and amounts), committed or dropped, some in one task list of several tasks; queries (metadata, predictFee, balanceOf, allowedBalanceOf; also of an address the access-control service black-lists and clears between proposals); batched submissions whose proposal carries a trace parent in the transient map while each simulating peer's decorators add a different span of their own (the pending record is ledger data); probes which robot certificate the instance accepts; swaps begun in dropped simulations followed by an empty batchExecute (whose reply must not remember them); the cancellation of an open multi-swap sent with a timestamp before and with one after its deadline, both long past on the machine's own clock (the two replies must differ). Non-trivial: >= 3 dropped simulations that would have changed the metadata and >= 5 committed operations."
 	n := c.N(60, 1000)
 	for i := 0; i < n; i++ {
 		if err := c07Case(c); err != nil {
@@ -70,6 +71,10 @@ func c07Case(c *Ctx) error {
 	}
 	users := []*Account{u1, u2, u3}
 	watched := w.NewAccount(fpb.KeyType_ed25519)
+	// an account that takes part in nothing else holds a grouped balance and (below) an open multi-swap: its cancellation is
+	// the proposal whose verdict depends on the proposal's time
+	swapper := w.NewAccount(fpb.KeyType_ed25519)
+	w.SetBalance("tt", balance.BalanceTypeToken, swapper.AddrString(), "G1", big.NewInt(500))
 	for _, a := range append(users, w.Issuer, fa) {
 		w.SetBalance("tt", balance.BalanceTypeAllowed, a.AddrString(), "CURA", big.NewInt(int64(1000+rng.Intn(4000))))
 	}
@@ -172,12 +177,71 @@ func c07Case(c *Ctx) error {
 		req := w.SignedArgs("tt", fn, acc, strconv.FormatUint(cw.nonce, 10), args...)
 		return &fpb.Task{Id: w.Peer.NextTxID(), Method: fn, Args: req}
 	}
+	msID, msBegun, msAt := "", false, int64(0)
 	for k := 30 + rng.Intn(21); k > 0; k-- {
 		switch r := rng.Intn(100); {
 		case r < 8:
 			if err := doInit(1+rng.Intn(2), rng.Intn(10) < 6); err != nil {
 				return err
 			}
+		case r < 12 && committedCfg != 0:
+			// (a) swaps begun through executeTasks in a simulation that is dropped, then an empty batchExecute: its reply must not
+			// remember them; (b) once, a multi-swap of the bystander is really begun; afterwards its cancellation is sent with a
+			// timestamp before and with one after the deadline (both long past on this machine's clock)
+			js := `{"assets":[{"group":"TT_G1","amount":"7"}]}`
+			if !msBegun {
+				cw.nonce++
+				msID = w.Peer.NextTxID()
+				req := w.SignedArgs("tt", "multiSwapBegin", swapper, strconv.FormatUint(cw.nonce, 10), "TT", js, "VT", hex.EncodeToString(swHash("k1")))
+				data, _ := proto.Marshal(&fpb.ExecuteTasksRequest{Tasks: []*fpb.Task{{Id: msID, Method: "multiSwapBegin", Args: req}}})
+				ra, dA, dB, dA2, err := run3(c07Prop{creator: robots[committedCfg].Creator, args: strArgs("executeTasks", []string{string(data)})})
+				if err != nil {
+					return err
+				}
+				steps = append(steps, fmt.Sprintf("SQuery %d %d %d", dA, dB, dA2))
+				if ra.OK() && len(ra.Writes) > 1 {
+					w.Peer.Commit("tt", ra)
+					msBegun, msAt = true, w.Peer.Now
+				}
+				jsteps = append(jsteps, map[string]interface{}{"multi_swap_begun": msBegun, "status": ra.Status, "message": ra.Message})
+				c.Count("multiswap_begun_" + coqBool(msBegun))
+				continue
+			}
+			if rng.Intn(2) == 0 {
+				cw.nonce++
+				req := w.SignedArgs("tt", "swapBegin", swapper, strconv.FormatUint(cw.nonce, 10), "TT_G1", "VT", "3", hex.EncodeToString(swHash("k2")))
+				data, _ := proto.Marshal(&fpb.ExecuteTasksRequest{Tasks: []*fpb.Task{{Id: w.Peer.NextTxID(), Method: "swapBegin", Args: req}}})
+				_, dA, dB, dA2, err := run3(c07Prop{creator: robots[committedCfg].Creator, args: strArgs("executeTasks", []string{string(data)})})
+				if err != nil {
+					return err
+				}
+				steps = append(steps, fmt.Sprintf("SQuery %d %d %d", dA, dB, dA2))
+				empty, _ := proto.Marshal(&fpb.Batch{})
+				_, dA, dB, dA2, err = run3(c07Prop{creator: robots[committedCfg].Creator, args: strArgs("batchExecute", []string{string(empty)})})
+				if err != nil {
+					return err
+				}
+				steps = append(steps, fmt.Sprintf("SQuery %d %d %d", dA, dB, dA2))
+				c.Count("dropped_swap_begin_then_empty_batch")
+				continue
+			}
+			cw.nonce++
+			req := w.SignedArgs("tt", "multiSwapCancel", swapper, strconv.FormatUint(cw.nonce, 10), msID)
+			data, _ := proto.Marshal(&fpb.ExecuteTasksRequest{Tasks: []*fpb.Task{{Id: w.Peer.NextTxID(), Method: "multiSwapCancel", Args: req}}})
+			now := w.Peer.Now
+			var ds [2]uint64
+			for j, at := range []int64{msAt + 100, msAt + 10800 + 100} {
+				w.Peer.Now = at
+				_, dA, dB, dA2, err := run3(c07Prop{creator: robots[committedCfg].Creator, args: strArgs("executeTasks", []string{string(data)})})
+				if err != nil {
+					return err
+				}
+				steps = append(steps, fmt.Sprintf("SQuery %d %d %d", dA, dB, dA2))
+				ds[j] = dA
+			}
+			w.Peer.Now = now
+			steps = append(steps, fmt.Sprintf("SClock %d %d", ds[0], ds[1]))
+			c.Count("cancel_before_and_after_the_deadline")
 		case r < 62:
 			o := randOp()
 			commit := rng.Intn(10) < 6
